@@ -40,6 +40,8 @@ def check_C11(ctx):
     for cfg, F in ctx.configs(["K1", "K3"]):
         # attachments parked in the per-thread tables are open descriptors: they must not survive a failed send or decode
         tls.rule_tls_restore(ctx, cfg, F)
+        # a router whose proxy is gone stops: otherwise its thread, its epoll descriptor and every routed receiver stay for the life of the process
+        router.rules_run(ctx, cfg, F, "C17")
     ctx.assume("kernel: accept(2)/dup(2) do not set FD_CLOEXEC; glibc shm_open does; mio's epoll descriptor is CLOEXEC")
     ctx.assume("panicking (unwind) paths are outside the all-paths rules")
 
@@ -78,6 +80,7 @@ def check_C17(ctx):
         router.rules_run(ctx, cfg, F, "C17")
         ctx.rule("STOP-EXIT").floor("run_fns[%s]" % cfg, 1, cfg)
         router.rule_stop_flag(ctx, cfg, F)
+        router.rule_stop_nodrop(ctx, cfg, F)
         ctx.rule("STOP-FLAG").floor("proxy_senders[%s]" % cfg, 2, cfg)
     ctx.assume("the router value is dropped when run() returns (it is a temporary in the thread closure), which drops the receiver set")
 
@@ -110,6 +113,8 @@ def check_C07(ctx):
         ctx.rule("SET-DRAIN").floor("member_reads[%s]" % cfg, 1, cfg)
         # how the end of an interrupted message is classified decides whether one route is retired (wrongly: known finding) or the whole router stops
         recv.rule_closed_origin(ctx, cfg, F)
+        # a sender that arrives in a routed message must not be inheritable: a spawned child would keep the route's channel open and its callback alive
+        fd.rule_cloexec(ctx, cfg, F, None)
     ctx.assume("Result::map runs its closure iff the receiver is Ok; crossbeam and the receiver set deliver in order (C06)")
 
 
@@ -137,6 +142,8 @@ def check_C16(ctx):
     for cfg, F in ctx.configs(["K1", "K2"]):
         # an attachment no encoder of this crate produces (an empty region from a peer using the platform API) must not panic the receiver
         mem.rule_map_guard(ctx, cfg, F)
+        # attachments the kernel already installed are wrapped (and so released) whatever happens next: no error exit between the first read and the wrapping
+        recv.rule_msg_commit(ctx, cfg, F)
     for cfg, F in ctx.configs(["K1", "K2"]):
         model = fd.build_model(F)
         fd.rule_fd_drop(ctx, cfg, F, model)
@@ -157,6 +164,9 @@ def check_C15(ctx):
         # "never delivered with attachments mis-assigned or left to hang the receiver": the per-message descriptor is last and every descriptor is classified by its own test
         send.rule_dedicated_last(ctx, cfg, F)
         ipcl.rule_split_classify(ctx, cfg, F)
+    for cfg, F in ctx.configs(["K1", "K3"]):
+        # where the transport sets no limit (in-process), any number of attachments is carried: the index on the wire is a full usize, never a narrower integer
+        ipcl.rule_idx_pos(ctx, cfg, F)
     ctx.assume("the kernel truncates control data beyond msg_controllen and the receiver does not inspect MSG_CTRUNC, so the bound must be enforced by the sender")
 
 
@@ -170,6 +180,9 @@ def check_C18(ctx):
     for cfg, F in ctx.configs(["K1", "K2", "K3"]):
         mem.rule_null_guard(ctx, cfg, F)
         ctx.rule("NULL-GUARD").floor("nonnull_api_sites[%s]" % cfg, 1 if cfg == "K3" else 2, cfg)
+    for cfg, F in ctx.configs(["K3"]):
+        # the in-process region reads through a raw pointer: it points into the Arc<Vec<u8>> stored beside it, never into the caller's buffer
+        ipcl.rule_shm_inproc(ctx, cfg, F)
     for cfg, F in ctx.configs(["K1", "K2"]):
         mem.rule_setlen_cap(ctx, cfg, F)
         ctx.rule("SETLEN-CAP").floor("set_len_sites[%s]" % cfg, 1, cfg)
@@ -290,6 +303,8 @@ def check_C12(ctx):
         send.rule_frag_route(ctx, cfg, F)
         send.rule_peer_closed(ctx, cfg, F)
         fd.rule_cloexec(ctx, cfg, F, None)
+        # the per-message socket is connection-oriented: the death of the sender ends the follow-up reads (a datagram socket would wait forever)
+        fd.rule_sock_type(ctx, cfg, F)
     ctx.assume("a dying sender closes both ends of its per-message socketpair (kernel), so the follow-up read returns 0")
 
 
@@ -357,6 +372,8 @@ LEVEL["C13"] = ("Decides the loop-invariant clauses of C13 only: a transmission 
 def check_C13(ctx):
     for cfg, F in ctx.configs(["K1", "K2"]):
         send.rules_send_flow(ctx, cfg, F, "C13")
+        # a refused transmission is seen as refused: only `result > 0` counts as sent
+        send.rule_send_check(ctx, cfg, F)
         ctx.rule("RETRY-GUARD").floor("retry_edges[%s]" % cfg, 2, cfg)
         send.rule_retry_shrink(ctx, cfg, F)
         ctx.rule("RETRY-SHRINK").floor("downsize_calls[%s]" % cfg, 2, cfg)
@@ -393,9 +410,14 @@ def check_C02(ctx):
         # a timed receive that poll() reports ready must read: returning closed/empty instead loses the queued messages
         recv.rule_timeout_arm(ctx, cfg, F)
         ctx.rule("TIMEOUT-ARM").floor("poll_sites[%s]" % cfg, 1, cfg)
+        # "whole": every socket keeps packet boundaries
+        fd.rule_sock_type(ctx, cfg, F)
+        ctx.rule("SOCK-TYPE").floor("socket_sites[%s]" % cfg, 3, cfg)
     for cfg, F in ctx.configs(["K1", "K3"]):
         # through a set (router, async): two live members under one id mix their messages
         rset.rule_set_id(ctx, cfg, F, "unix" if cfg == "K1" else "inprocess")
+        # a routed message is handed on exactly once, whatever the consumer's queue looks like
+        router.rule_forward_closure(ctx, cfg, F)
     for cfg, F in ctx.configs(["K1"]):
         # delivery through a receiver set: edge-triggered readiness means a member not drained loses (never delivers) messages
         rset.rule_set_unix(ctx, cfg, F)
@@ -504,6 +526,8 @@ def check_C04(ctx):
         recv.rule_nb_mode(ctx, cfg, F)
         # a message that carries more endpoints than the receiver's control buffer holds is refused, not truncated
         send.rule_fd_bound(ctx, cfg, F)
+        # a transferred receiver yields its whole backlog whichever receive flavour drains it: a ready poll reads
+        recv.rule_timeout_arm(ctx, cfg, F)
     ctx.assume("the kernel passes descriptors in SCM_RIGHTS in array order")
 
 
@@ -533,11 +557,18 @@ def check_C01(ctx):
         # the matching blocking receive waits for the value: the descriptor is left in blocking mode by every polling receive
         recv.rule_nb_pair(ctx, cfg, F)
         recv.rule_nb_mode(ctx, cfg, F)
+        # the per-message socket is found again by the receiver (last descriptor, sorted by kind) and keeps packet boundaries: otherwise the tail of a fragmented payload is lost
+        send.rule_dedicated_last(ctx, cfg, F)
+        ipcl.rule_split_classify(ctx, cfg, F)
+        fd.rule_sock_type(ctx, cfg, F)
         # an accepted send transmitted every fragment: no transmission error is swallowed (other than the guarded retry)
         send.rules_send_flow(ctx, cfg, F, "C09")
         ctx.rule("SEND-PROP").floor("fallible_calls[%s]" % cfg, 3, cfg)
         recv.rule_msg_commit(ctx, cfg, F)
     for cfg, F in ctx.configs(["K1", "K3"]):
+        # decoding is re-entrant: a receive nested in a Deserialize impl neither sees nor destroys the attachments of the value being decoded
+        tls.rule_tls_restore(ctx, cfg, F)
+        ipcl.rule_idx_base(ctx, cfg, F)
         ipcl.rule_whole_buf(ctx, cfg, F)
         ctx.rule("WHOLE-BUF").floor("payload_sites[%s]" % cfg, 4, cfg)
         ipcl.rule_buf_fresh(ctx, cfg, F)
@@ -625,6 +656,8 @@ LEVEL["C20"] = ("Decides the protocol-shape clauses of C20 only (feature `async`
 def check_C20(ctx):
     for cfg, F in ctx.configs(["K4", "K5"] + (["K6", "K8"] if ctx.tier == "thorough" else [])):
         asyn.rule_as_order(ctx, cfg, F)
+        # items are decoded lazily on the consumer's thread: a failed decode releases the message's attachments (a parked sender would keep another stream from ending)
+        tls.rule_tls_restore(ctx, cfg, F)
         asyn.rule_as_poll(ctx, cfg, F)
         ctx.rule("AS-POLL").floor("poll_fns[%s]" % cfg, 1, cfg)
         ctx.rule("AS-ORDER").floor("to_stream[%s]" % cfg, 1, cfg)
@@ -670,6 +703,7 @@ def check_C19(ctx):
     for cfg, F in ctx.configs(["K1", "K2"]):
         recv.rule_zero_read(ctx, cfg, F)
         recv.rule_timeout_arm(ctx, cfg, F)
+        ctx.rule("TIMEOUT-ARM").floor("poll_sites[%s]" % cfg, 1, cfg)
         recv.rule_nb_pair(ctx, cfg, F)
         recv.rule_nb_mode(ctx, cfg, F)
     for cfg, F in ctx.configs(["K3"]):
@@ -724,6 +758,22 @@ _also("C17", "Also: while stopping the router unwraps nothing but the acknowledg
 _also("C18", "Also: mmap's length is tested non-zero and its result compared with MAP_FAILED before use (MAP-GUARD).")
 _also("C19", "Also: the OS backends sort received descriptors by their own kind and take the per-message socket from the end (SPLIT-CLASSIFY, DEDICATED-LAST), as the in-process backend keeps typed lists.")
 _also("C20", "Also: poll_next passes the caller's context to the forwarding channel on every path (AS-POLL), so each pending poll is woken.")
+
+
+# clauses bound after the fifth seeding round
+_also("C01", "Also: decoding is re-entrant (TLS-RESTORE, IDX-BASE on the decode tables); the per-message socket is found again by the receiver and keeps packet boundaries (DEDICATED-LAST, SPLIT-CLASSIFY, SOCK-TYPE).")
+_also("C02", "Also: every socket is SOCK_SEQPACKET (SOCK-TYPE); the router's forwarding closures hand a message on exactly once (RT-FORWARD).")
+_also("C04", "Also: a ready poll reads (TIMEOUT-ARM), so a transferred receiver yields its backlog whichever receive flavour drains it.")
+_also("C07", "Also: descriptors received in routed messages are close-on-exec (CLOEXEC).")
+_also("C10", "Also: a failed poll is passed on as the OS error, never as an expired wait (TIMEOUT-ARM); each in-process entry point reaches its own crossbeam receive on every feasible path (MODE-TABLE).")
+_also("C11", "Also: the router stops when its proxy is gone (STOP-EXIT and the other router stop rules): a router that never stops keeps its epoll descriptor and every routed receiver.")
+_also("C12", "Also: the per-message socket is connection-oriented SOCK_SEQPACKET (SOCK-TYPE): the death of the sender ends the follow-up reads.")
+_also("C13", "Also: only `result > 0` counts as a sent fragment (SEND-CHECK); inside the loop the give-up decision is taken on the refused fragment's size (RETRY-SHRINK).")
+_also("C15", "Also: the attachment index on the wire is a full usize (IDX-POS index-type clause): where the transport sets no limit, any count is carried.")
+_also("C16", "Also: no error exit lies between the first read of a message and the wrapping of the descriptors it carried (MSG-COMMIT).")
+_also("C17", "Also: shutdown() records the stop on every path (STOP-FLAG), and no Drop impl of a router type stops or waits for the router (STOP-NODROP).")
+_also("C18", "Also: the in-process region's pointer points into the Arc<Vec<u8>> stored beside it (SHM-INPROC).")
+_also("C20", "Also: a failed lazy decode on the consumer's thread releases the message's attachments (TLS-RESTORE).")
 
 
 # --------------------------------------------------------------------------- registry metadata
